@@ -7,7 +7,14 @@
       (= [trtri_upper_simple]), and it never fails in a configuration whose recursion threshold
       exceeds 64^2 (128^2 with SSE2) — [trtri_rec_ok], [trtri_rec_some]; instance [trtri_upper_rec]
    3. inversion through the reduced row echelon form of [A | I]: for invertible A the
-      model, the faithful padded model (for every k) and the naive routine all return THE inverse. *)
+      model, the faithful padded model (for every k) and the naive routine all return THE inverse.
+
+   Observations on the C code that the models do not share (reported, not modelled):
+   - triangular.c:519 computes U->nrows * U->ncols in int: signed overflow (undefined behaviour)
+     from 46341 rows on; the models compare in N.
+   - brilliantrussian.c:976 asserts [B->ncols == A->ncols && B->nrows && A->ncols] (presumably
+     [B->nrows == A->nrows] was meant); with NDEBUG nothing is checked and a wrongly shaped B
+     only dies in mzd_copy. *)
 From Coq Require Import List NArith Arith Lia Bool Sorted ZArith ZifyBool ZifyNat ZifyN.
 From M4 Require Import Base.Bits Lin.Mat Lin.MatAlg Lin.Ops Lin.OpsProofs Lin.Spec Lin.Span
   Lin.Echelon Lin.Observers Lin.Tri Alg.Gauss Alg.GaussProofs Alg.TRSM Alg.TRSMProofs Alg.TRSMRec
